@@ -343,6 +343,76 @@ def E5(m, R):
                     R.viol(f, stn, 'the table of %s is handed to the receiver and %s is returned as well: two strings share one table' % (donor, donor), construct=cons)
                     continue
             R.ok(f, stn, 'assigned a fresh list / table', construct=cons)
+    # one list, one owner, also inside one string: a local list handed to a point (constructor argument / START / STOP store) by its bare
+    # name is given away; reaching a second hand-over of the same name without a rebinding in between puts one list into two places
+    from ..cfg import CFG
+    f = m.fn('AnsiString.__getitem__')
+    cfg = CFG(f.node, f.body)
+
+    def handovers(holder):
+        out = []
+        if holder is None:
+            return out
+        for x in ast.walk(holder):
+            if isinstance(x, ast.Call) and call_name(x) == ro.POINT:
+                for a_ in list(x.args) + [k.value for k in x.keywords]:
+                    if isinstance(a_, ast.Name):
+                        out.append((a_.id, x))
+            elif isinstance(x, ast.Assign) and isinstance(x.value, ast.Name) and any(isinstance(t_, ast.Attribute) and t_.attr in (ro.START, ro.STOP) for t_ in x.targets):
+                out.append((x.value.id, x))
+        return out
+
+    def rebinds(nd, name_):
+        st_ = nd.stmt
+        if nd.kind in ('test', 'loop'):
+            return isinstance(st_, ast.For) and name_ in names_in(st_.target)
+        return isinstance(st_, (ast.Assign, ast.AnnAssign, ast.AugAssign)) and any(
+            isinstance(t_, ast.Name) and t_.id == name_ for t_ in (st_.targets if isinstance(st_, ast.Assign) else [st_.target]))
+    twice = None
+    n_give = 0
+    for nd in cfg.nodes:
+        if nd.kind != 'stmt':
+            continue
+        for name_, call_ in handovers(nd.stmt):
+            n_give += 1
+            # forward search, remembering the outcome of each test passed (a path that needs one test both ways is not a path)
+            start_conds = []
+            ch_, par_ = nd.stmt, getattr(nd.stmt, '_parent', None)
+            while par_ is not None and par_ is not f.node:
+                if isinstance(par_, ast.If):
+                    start_conds.append((norm(par_.test), any(ch_ is b_ for b_ in par_.body)))
+                ch_, par_ = par_, getattr(par_, '_parent', None)
+            stack = [(nx_, frozenset(start_conds)) for _l, nx_ in nd.succ]
+            seen = set()
+            while stack and twice is None:
+                cur, conds = stack.pop()
+                if (cur.id, conds) in seen or len(seen) > 20000:
+                    continue
+                seen.add((cur.id, conds))
+                if cur.kind == 'stmt' and any(n2 == name_ for n2, _c in handovers(cur.stmt)):
+                    twice = (name_, call_, cur)
+                    break
+                if rebinds(cur, name_):
+                    continue
+                for lab, nx_ in cur.succ:
+                    c2 = conds
+                    if cur.kind == 'test' and isinstance(lab, bool):
+                        t_ = norm(cur.test)
+                        if (t_, not lab) in conds:
+                            continue
+                        c2 = conds | {(t_, lab)}
+                    stack.append((nx_, c2))
+            if twice:
+                break
+        if twice:
+            break
+    if twice:
+        R.viol(f, twice[2].stmt, 'the list %s is handed to a point at L%d (%s) and, without having been rebound, again at L%d (%s): two marker lists of the result are one '
+                                 'object, so an in-place change of one (+=, insert_settings, a seam merge that deletes from the end list) changes the other'
+               % (twice[0], twice[1].lineno, short(twice[1]), twice[2].line, short(twice[2].stmt)), construct='AnsiString.__getitem__: one list, one owner')
+    else:
+        R.ok(f, f.node, 'no local list is handed to two places of the result (%d hand-overs by bare name followed)' % n_give,
+             construct='AnsiString.__getitem__: one list, one owner')
     # the iterator's active list is its own
     it = m.cls(ro.ITERATOR)
     a = H.analyse('%s.__init__' % ro.ITERATOR)
